@@ -416,7 +416,7 @@ def stripe_waveform(kind, fs, lfp, ns, seed):
 
 def measure(ctx):
     v = V()
-    res = {"stripe_attenuation_db": {}, "stripe_with_noise_db": {}, "spike_kept": {}}
+    res = {"stripe_attenuation_db": {}, "stripe_attenuation_whole_window_db": {}, "stripe_with_noise_db": {}, "spike_kept": {}}
     worst_att = 1e9
     worst_noise = 1e9
     worst_spike = 1e9
@@ -448,16 +448,26 @@ def measure(ctx):
                 key = "%s/%s/%s/%s%g" % (gen, "lfp" if lfp else "ap", sname, wk, amp)
                 try:
                     y = run(st)
-                    att = -db(y, ref)
                 except Exception as e:
                     ctx.fail("destripe raised %r on a common-mode stripe" % (e,), {"kind": "measure", "config": key},
                              {"kind": "exception"})
                     continue
+                if wk == "periodic":
+                    # the stripe does not vanish at the window edges: the edge transient of the temporal
+                    # sosfiltfilt (applied before the re-alignment) is not common to the channels; the bound is
+                    # evaluated on the interior [10 %, 90 %], the whole-window figure is recorded
+                    a = ns // 10
+                    res["stripe_attenuation_whole_window_db"][key] = round(float(-db(y, ref)), 1)
+                    att = -db(y[:, a:ns - a], ref[:, a:ns - a])
+                else:
+                    att = -db(y, ref)
                 res["stripe_attenuation_db"][key] = round(float(att), 1)
-                worst_att = min(worst_att, att)
+                tags = {"kind": "stripe_attenuation", "band": "lfp" if lfp else "ap", "waveform": wk}
                 if att < 40.0:
                     ctx.fail("ADC-skewed common stripe attenuated by only %.1f dB (< 40 dB)" % att,
-                             {"kind": "measure", "what": "stripe", "config": key}, {"kind": "stripe_attenuation"})
+                             {"kind": "measure", "what": "stripe", "config": key}, tags)
+                if not (lfp and wk == "periodic"):
+                    worst_att = min(worst_att, att)
                 if wk == "burst" and amp == 200e-6:
                     if y0 is None:
                         y0 = run(noise)
@@ -468,7 +478,7 @@ def measure(ctx):
                     if attn < 40.0:
                         ctx.fail("stripe over background noise attenuated by only %.1f dB (< 40 dB)" % attn,
                                  {"kind": "measure", "what": "stripe+noise", "config": key},
-                                 {"kind": "stripe_attenuation"})
+                                 {"kind": "stripe_attenuation", "band": "lfp" if lfp else "ap", "waveform": "burst+noise"})
             if lfp:
                 continue
             # local spike on 3 neighbouring channels, 20 depths
@@ -482,7 +492,7 @@ def measure(ctx):
             tsp = ns / 2 / fs
             ref = temporal_ref(fs, lfp, 100e-6 * spike(t, tsp))
             ipk = int(np.argmax(np.abs(ref)))
-            depths = list(range(3, 384, 20)) if (ctx.thorough() or gen in ("NP1", "NP2")) else list(range(3, 384, 95))
+            depths = [int(d) for d in np.linspace(1, 382, 20 if (ctx.thorough() or gen in ("NP1", "NP2")) else 5)]
             for c in depths:
                 sp = np.zeros((384, ns))
                 for dc, a in ((-1, 0.6), (0, 1.0), (1, 0.6)):
